@@ -26,6 +26,14 @@ structure Table where
   generatorFieldWrites : List (String × String)
   writerStructWrites : List (String × String)
   poolPuts : List (String × String × String)
+  pkgObjects : List (String × String × String) := []
+
+/-- makers of package-level objects whose results are immutable after package initialisation (error values, version
+    descriptors, tables and slices no function assigns to — assignments are `pkgVarWrites`) or documented as safe for
+    concurrent use (sync.Pool). Anything else held in a package-level variable — a buffer, a reader, a cache — is state
+    that every goroutine using the package shares behind the API. -/
+def allowedMakers : List String :=
+  ["call errors.New", "call fmt.Errorf", "lit sync.Pool", "lit WarcVersion", "lit []byte", "lit []string", "lit []fieldDef", "call make"]
 
 /-- one round: methods reached from an unlocked method through a call that does not enter a lock holder -/
 def expand (t : Table) (u : List String) : List String :=
@@ -52,7 +60,8 @@ def RaceFree (t : Table) : Bool :=
   t.unsafeExternalCalls.all (fun c => c.1 == "init") &&
   t.generatorFieldWrites.isEmpty &&
   t.writerStructWrites.isEmpty &&
-  t.poolPuts.all (fun p => p.2.2 == "niled")
+  t.poolPuts.all (fun p => p.2.2 == "niled") &&
+  t.pkgObjects.all (fun o => allowedMakers.contains o.2.2)
 
 /-- a call path inside the type: consecutive methods are caller/callee, and no method after the first takes the lock -/
 def UnlockedPath (t : Table) : List String → Prop
